@@ -23,6 +23,7 @@ import (
 	"github.com/sirupsen/logrus"
 
 	"github.com/projectcalico/calico/felix/labelindex"
+	"github.com/projectcalico/calico/felix/labelindex/ipsetmember"
 	"github.com/projectcalico/calico/felix/labelindex/labelnamevalueindex"
 	"github.com/projectcalico/calico/felix/labelindex/labelrestrictionindex"
 	"github.com/projectcalico/calico/lib/std/uniquelabels"
@@ -78,8 +79,15 @@ func genSet(r *rng) string {
 	return "{" + strings.Join(xs, ", ") + "}"
 }
 
+// focus is the label most atoms of one expression talk about, so that And/Or operands restrict the SAME label
+// (the interesting case for intersection/union of value sets).
+var focus = "a"
+
 func genAtom(r *rng) string {
 	k := r.pick(keys)
+	if r.chance(55) {
+		k = focus
+	}
 	v := r.pick(vals)
 	switch r.intn(16) {
 	case 0, 1, 2:
@@ -111,6 +119,9 @@ func genAtom(r *rng) string {
 }
 
 func genExpr(r *rng, d int) string {
+	if r.chance(20) {
+		focus = r.pick(keys)
+	}
 	if d <= 0 || r.chance(35) {
 		return genAtom(r)
 	}
@@ -710,6 +721,151 @@ func coqRestrUnsorted(res parser.LabelRestriction) string {
 	return fmt.Sprintf("{| r_present := %s; r_absent := %s; r_vals := %s |}", coqBool(res.MustBePresent), coqBool(res.MustBeAbsent), v)
 }
 
+// ---------------------------------------------------------------- stream 5: iterEndpointCandidates (SelectorAndNamedPortIndex)
+
+type npOp struct {
+	kind string // ep, delep, par, delpar, query
+	id   int
+	L    map[string]string
+	ps   []int
+	sel  string
+}
+
+// runNp executes a history on a fresh real SelectorAndNamedPortIndex.  Returns the Coq ops, the per-query outputs and
+// whether the implementation panicked.
+func runNp(hist []npOp) (ops, outs, sample []string, narrowed bool, panicked string) {
+	defer func() {
+		if e := recover(); e != nil {
+			panicked = fmt.Sprint(e)
+		}
+	}()
+	idx := labelindex.NewSelectorAndNamedPortIndex(false)
+	live := map[int]bool{}
+	for _, o := range hist {
+		switch o.kind {
+		case "ep":
+			pstr := make([]string, len(o.ps))
+			for i, p := range o.ps {
+				pstr[i] = fmt.Sprintf("p%d", p)
+			}
+			ops = append(ops, fmt.Sprintf("(NpEndpoint %d %s %s)", o.id, coqLabels(o.L), coqNList(o.ps)))
+			sample = append(sample, fmt.Sprintf("UpdateEndpointOrSet(%d,%v,%v)", o.id, o.L, pstr))
+			idx.UpdateEndpointOrSet(o.id, uniquelabels.Make(o.L), nil, nil, pstr)
+			live[o.id] = true
+		case "delep":
+			ops = append(ops, fmt.Sprintf("(NpDelEndpoint %d)", o.id))
+			sample = append(sample, fmt.Sprintf("DeleteEndpoint(%d)", o.id))
+			idx.DeleteEndpoint(o.id)
+			delete(live, o.id)
+		case "par":
+			ops = append(ops, fmt.Sprintf("(NpParent %d %s)", o.id, coqLabels(o.L)))
+			sample = append(sample, fmt.Sprintf("UpdateParentLabels(p%d,%v)", o.id, o.L))
+			idx.UpdateParentLabels(fmt.Sprintf("p%d", o.id), o.L)
+		case "delpar":
+			ops = append(ops, fmt.Sprintf("(NpDelParent %d)", o.id))
+			sample = append(sample, fmt.Sprintf("DeleteParentLabels(p%d)", o.id))
+			idx.DeleteParentLabels(fmt.Sprintf("p%d", o.id))
+		case "query":
+			sel := mustParse(o.sel)
+			ops = append(ops, fmt.Sprintf("(NpQuery %s)", coqAst(sel.Root())))
+			idx.UpdateIPSet("q", sel, ipsetmember.ProtocolNone, "")
+			var ids []int
+			for _, id := range idx.VerifIterCandidates("q") {
+				ids = append(ids, id.(int))
+			}
+			idx.DeleteIPSet("q")
+			sort.Ints(ids)
+			if len(ids) < len(live) {
+				narrowed = true
+			}
+			outs = append(outs, coqNList(ids))
+			sample = append(sample, fmt.Sprintf("candidates(%s) -> %v of %d endpoints", sel.String(), ids, len(live)))
+		}
+	}
+	return
+}
+
+func npLine(hist []npOp, extraTags ...string) line {
+	ops, outs, sample, narrowed, panicked := runNp(hist)
+	tags := map[string]bool{"stream:np": true}
+	for _, t := range extraTags {
+		tags[t] = true
+	}
+	if narrowed {
+		tags["np:narrowed"] = true
+	}
+	key := "np|" + strings.Join(ops, ";")
+	if panicked != "" {
+		// a valid history made the index panic: reported through the CCrash case (its oracle is `false`)
+		tags["np:panic"] = true
+		sample = append(sample, "PANIC: "+panicked)
+		return line{Coq: "(CCrash " + coqList("np_op", ops) + ")%N", NT: true, Key: key,
+			Sample: map[string]any{"stream": "np", "trace": sample}, Tags: tagList(tags)}
+	}
+	return line{Coq: "(CNp " + coqList("np_op", ops) + " " + coqList("(list N)", outs) + ")%N", NT: narrowed && len(outs) > 0,
+		Key: key, Sample: map[string]any{"stream": "np", "trace": sample}, Tags: tagList(tags)}
+}
+
+// directed scenario: an endpoint that names the same parent twice, then goes away
+func npDupParentCase() line {
+	return npLine([]npOp{
+		{kind: "par", id: 0, L: map[string]string{"b": "y"}},
+		{kind: "ep", id: 0, L: map[string]string{"a": "x"}, ps: []int{0, 0}},
+		{kind: "query", sel: `a == "x" && b == "y"`},
+		{kind: "delep", id: 0},
+		{kind: "query", sel: `a == "x"`},
+	}, "np:duplicate-parent-ids")
+}
+
+func npCase(r *rng) line {
+	nEps, nPars := 3+r.intn(3), 1+r.intn(3)
+	nops := 10 + r.intn(22)
+	var hist []npOp
+	for j := 0; j < nops; j++ {
+		switch k := r.intn(100); {
+		case k < 30:
+			// own labels on a subset of the keys so that inheritance matters
+			L := genLabels(r, 1+r.intn(3))
+			var ps []int
+			seen := map[int]bool{}
+			for q := r.intn(3); q > 0; q-- {
+				p := r.intn(nPars)
+				if !seen[p] { // duplicate parent ids are exercised by the directed scenario only
+					seen[p] = true
+					ps = append(ps, p)
+				}
+			}
+			hist = append(hist, npOp{kind: "ep", id: r.intn(nEps), L: L, ps: ps})
+		case k < 37:
+			hist = append(hist, npOp{kind: "delep", id: r.intn(nEps)})
+		case k < 52:
+			L := genLabels(r, 3)
+			if len(L) == 0 {
+				L = map[string]string{r.pick(keys): r.pick(vals)}
+			}
+			hist = append(hist, npOp{kind: "par", id: r.intn(nPars), L: L})
+		case k < 58:
+			hist = append(hist, npOp{kind: "delpar", id: r.intn(nPars)})
+		default:
+			hist = append(hist, npOp{kind: "query", sel: genExpr(r, r.intn(3))})
+		}
+	}
+	return npLine(hist)
+}
+
+// safe turns a panic of the code under test into a failing case (CPanic: its oracle is `false`) instead of killing the driver.
+func safe(stream string, seed uint64, i int, f func() line) (l line) {
+	defer func() {
+		if e := recover(); e != nil {
+			l = line{Coq: "(CPanic " + coqBytes(stream) + ")%N", NT: true,
+				Key:    fmt.Sprintf("%s|panic|%d|%d", stream, seed, i),
+				Sample: map[string]any{"stream": stream, "panic": fmt.Sprint(e), "reproduce": fmt.Sprintf("driver -seed %d, case #%d", seed, i)},
+				Tags:   []string{"panic:" + stream, "stream:" + stream}}
+		}
+	}()
+	return f()
+}
+
 func main() {
 	n := flag.Int("n", 100, "cases")
 	seed := flag.Uint64("seed", 1, "seed")
@@ -720,14 +876,18 @@ func main() {
 	for i := 0; i < *n; i++ {
 		var l line
 		switch k := i % 20; {
-		case k < 10:
-			l = idxCase(r)
-		case k < 15:
-			l = restrCase(r)
-		case k < 17:
-			l = riCase(r)
+		case i == 19:
+			l = npDupParentCase()
+		case k < 8:
+			l = safe("idx", *seed, i, func() line { return idxCase(r) })
+		case k < 12:
+			l = safe("restr", *seed, i, func() line { return restrCase(r) })
+		case k < 14:
+			l = safe("ri", *seed, i, func() line { return riCase(r) })
+		case k < 16:
+			l = safe("nv", *seed, i, func() line { return nvCase(r) })
 		default:
-			l = nvCase(r)
+			l = npCase(r)
 		}
 		_ = enc.Encode(l)
 	}
